@@ -208,6 +208,9 @@ func Gen(prop, tier string, seed, run uint64) Plan {
 		p.Converters = []string{"vconv"}
 		if r.IntN(3) == 0 {
 			p.Converters = append(p.Converters, "wconv")
+			if r.IntN(3) == 0 || (prop == "C11" || prop == "C16") && r.IntN(2) == 0 {
+				p.Converters = append(p.Converters, "xconv")
+			}
 		}
 	}
 	if prop == "C16" || prop == "C09" || prop == "C20" {
@@ -378,8 +381,9 @@ func Gen(prop, tier string, seed, run uint64) Plan {
 			mutOps = append(mutOps, Op{C: CMut, K: kk, Name: m, IDs: l})
 		case k < 19:
 			var cs []string
+			all := r.IntN(4) == 0
 			for _, c := range p.Converters {
-				if r.IntN(2) == 0 {
+				if all || r.IntN(2) == 0 {
 					cs = append(cs, c)
 				}
 			}
